@@ -160,7 +160,8 @@ def run_stage(ctx):
         else:
             short = [c for c in cases[len(corpus):] if len(c[1]) <= 12]
             longc = [c for c in cases[len(corpus):] if 40 <= len(c[1]) <= 120]
-            mcases = [("miri-" + h, ops) for h, ops in corpus + rng.sample(short, min(160, len(short))) + rng.sample(longc, min(6, len(longc)))]
+            parc = [c for c in cases[len(corpus):] if "PAR 2 3" in c[1]][:3]      # (two threads: miri also looks for data races)
+            mcases = [("miri-" + h, ops) for h, ops in corpus + rng.sample(short, min(160, len(short))) + rng.sample(longc, min(6, len(longc))) + parc]
             okm, badm, leak = run_miri(ctx, drv, mcases)
             cov["arcslab_stage_miri"] = {"cases": len(mcases), "ok": okm, "bad": len(badm), "leak_report_at_exit": leak}
             if badm:
@@ -179,6 +180,8 @@ RULE = ("arcslab stage (package ARCSLAB; crate arcslab driven directly): every s
         "over 3 handle variables on pages of 1 and 3 slots and over 2 handle variables with 32-byte items, each followed by 'drop everything'; "
         "every script of length 3 (thorough 4) over the full alphabet incl. rejected operations; 1500 (thorough 12000) random scripts of "
         "30..500 operations over 4..40 handle variables on pages of 1..63 slots (fill / empty phases, slab lost early in a quarter); "
+        "30 (thorough 200) blocks of 2..4 threads that add / clone / convert / drop items at the same time (order-independent guarantees: no slot "
+        "shared by two live items, every payload dropped exactly once, num_items restored); "
         "a fifth of them again on the debug-profile build; thorough: about 170 of them under miri")
 
 
